@@ -169,6 +169,20 @@ func c01One(c c01Case, r *rep.R) (string, string) {
 	if c.Discover == 0 {
 		opts.CipherSuites = []ipmi.CipherSuite{suiteOf(c.Suite)}
 	}
+	// credentials as an application often holds them: user name, password and
+	// KG cut out of one buffer ("user:password:KG" read from a file), so every
+	// slice has the rest of the buffer as spare capacity behind it
+	var credBuf, credCopy []byte
+	if (c.ULen+c.PLen+c.Priv)%2 == 0 {
+		credBuf = append(append(append(append(append([]byte{}, cfg.Username...), ':'), cfg.Password...), ':'), kg...)
+		credBuf = append(credBuf, []byte(":trailer-the-caller-still-needs")...)
+		credCopy = append([]byte{}, credBuf...)
+		pw := credBuf[len(cfg.Username)+1 : len(cfg.Username)+1+len(cfg.Password)]
+		opts.Password = pw
+		if kg != nil {
+			opts.KG = credBuf[len(cfg.Username)+2+len(cfg.Password) : len(cfg.Username)+2+len(cfg.Password)+len(kg)]
+		}
+	}
 	if c.Reuse {
 		cfg0 := defaultConfig()
 		cfg0.Password = pattern(c.PLen+1, 0x51, 1)[:min(20, c.PLen+1)]
@@ -217,6 +231,14 @@ func c01One(c c01Case, r *rep.R) (string, string) {
 		} else if rd.Rsp.Reading != cfg.Sensors[2][0] {
 			lunErr = fmt.Errorf("Get Sensor Reading to LUN %d returned %#02x, the BMC sent %#02x", lun, rd.Rsp.Reading, cfg.Sensors[2][0])
 		}
+		if c.Priv == 5 && lunErr == nil {
+			// the session goes on for a while (6-bit and 8-bit fields wrap)
+			for i := 0; i < 270 && lunErr == nil; i++ {
+				if d, err := sess.GetDeviceID(w.Ctx); err != nil || d.ID != cfg.DeviceID[0] {
+					lunErr = fmt.Errorf("command %d on the session: %v %+v", i+4, err, d)
+				}
+			}
+		}
 		closeErr = sess.Close(w.Ctx)
 	})
 	cls := "std"
@@ -225,6 +247,9 @@ func c01One(c c01Case, r *rep.R) (string, string) {
 	}
 	if p != "" {
 		return "C01/" + cls + "/panic/" + siteKey(p), "panic: " + p
+	}
+	if credBuf != nil && !bytes.Equal(credBuf, credCopy) {
+		return "C01/" + cls + "/callers-credential-buffer-modified", fmt.Sprintf("the buffer the password and KG were sliced from was modified: before %q, after %q", credCopy, credBuf)
 	}
 	if err != nil {
 		if none {
